@@ -33,6 +33,16 @@ class ExpQMap:
         self.remove([qubit])
         self.exp_map[exp] = qubit
 
+    def remove_symbol(self, sym):
+        """Remove the expressions containing the symbol sym from the mapping"""
+        todel = []
+        for exp in self.exp_map.keys():
+            if sym in getattr(exp, "free_symbols", ()) and exp != sym:
+                todel.append(exp)
+
+        for exp in todel:
+            del self.exp_map[exp]
+
     def remove(self, qubits: List[int]):
         """Remove qubits from the mapping"""
         todel = []
